@@ -650,6 +650,28 @@ def gen_cases(tier, rng):
                     yield Case(ts_line(script, ms), cls="ts-late-join")
                 if k != 40:
                     yield Case(e2e_line(400, 1, 0, ms, {0: ["Jt:1"], k + 3: ["Jt:2"]}, wk=0, tsgop=rng.choice([0, 1])), cls="e2e-late-join")
+    # ... and late VIDEO after audio-only, the first late message being a FRAME (an inter frame passes although no parameter
+    # sets are cached yet), then the sequence header and a key frame: AVC, HEVC classic and enhanced-RTMP form
+    for k in (16, 17, 40):
+        for ac in ("aac", "opus"):
+            for vc, mode in (("avc", "classic"), ("hevc", "classic"), ("hevc", "ex1")):
+                ms = list(audio_msgs_header(ac, 4, 2))
+                for i in range(k - len(ms)):
+                    ms.append(audio_msg(rng, ac, 23 * i, 20))
+                t = 23 * k
+                if vc == "avc":
+                    vsh = Msg(9, t + 40, hex_tok(avc_seq_header([AVC_SETS[0][0]], [AVC_SETS[0][1]])))
+                    key_h, non_h = bytes([0x65]), bytes([0x41])
+                else:
+                    vsh = Msg(9, t + 40, hex_tok(hevc_seq_header(*HEVC_SETS[0], enhanced=mode != "classic")))
+                    key_h, non_h = bytes([0x26, 0x01]), bytes([0x02, 0x01])
+                ms.append(video_msg(vc, False, t, 0, [nal_token(rng, non_h, 8)[0]], mode))
+                ms.append(audio_msg(rng, ac, t + 10, 20))
+                ms.append(vsh)
+                ms.append(video_msg(vc, True, t + 40, 0, [nal_token(rng, key_h, 8)[0]], mode))
+                ms.append(audio_msg(rng, ac, t + 50, 20))
+                ms.append(video_msg(vc, False, t + 80, 0, [nal_token(rng, non_h, 8)[0]], mode))
+                yield Case(ts_line("", ms), cls="ts-late-join-video")
     # late sequence headers (after the probe / analysis windows): known limitation classes
     for k in (17, 20):
         ms = gen_stream(rng, "avc", "aac", 6, k + 8, dict(vsh_at=k + 2, video_start=23 * (k + 2), sizes=[9], audio_sizes=[8], sfi=4))
